@@ -126,10 +126,26 @@ def decode_no_raw_echo(ctx, rule='A6'):
             if isinstance(st, ast.Assign) and isinstance(st.targets[0], ast.Name) and none_test(st.value):
                 flags[st.targets[0].id] = none_test(st.value)
 
+        # ... and for loop / comprehension variables paired by zip with a list of such tests
+        # (`for v, act in zip(values, is_active)` with `is_active = [x is not None for x in ...]`)
+        list_flags = {st.targets[0].id: none_test(st.value.elt) for st in walk_fn(f)
+                      if isinstance(st, ast.Assign) and isinstance(st.targets[0], ast.Name) and
+                      isinstance(st.value, (ast.ListComp, ast.GeneratorExp)) and none_test(st.value.elt)}
+        for g_ in [x for c_ in ast.walk(f.node) if isinstance(c_, (ast.ListComp, ast.GeneratorExp, ast.SetComp))
+                   for x in c_.generators] + [x for x in ast.walk(f.node) if isinstance(x, ast.For)]:
+            if isinstance(g_.iter, ast.Call) and call_name(g_.iter) == 'zip' and isinstance(g_.target, ast.Tuple) and \
+                    len(g_.target.elts) == len(g_.iter.args):
+                for t_, a_ in zip(g_.target.elts, g_.iter.args):
+                    if isinstance(t_, ast.Name) and isinstance(a_, ast.Name) and a_.id in list_flags:
+                        flags[t_.id] = list_flags[a_.id]
+
         def test_of(e):
             r = none_test(e)
             if r is None and isinstance(e, ast.Name) and e.id in flags:
                 r = flags[e.id]
+            if r is None and isinstance(e, ast.Subscript) and isinstance(e.value, ast.Name) and \
+                    e.value.id in list_flags:
+                r = list_flags[e.value.id]       # an element of the list of none-tests
             if r is None and isinstance(e, ast.UnaryOp) and isinstance(e.op, ast.Not) and \
                     isinstance(e.operand, ast.Name) and e.operand.id in flags:
                 pol, txt = flags[e.operand.id]
